@@ -1,8 +1,13 @@
 /-
-C16 — Lean-checked witnesses: the FULL round-trip statement ("every savable value comes back equal") is false
-for the code as it is; each theorem below evaluates the model on the input of an open known finding
-(known/C16.jsonl replays the same input on the real driver).  The provable statement is `roundtrip_partial`
-(NV/C16/Props.lean), whose side condition `Savable` excludes exactly these regions.
+C16 — Lean-checked witnesses, by kernel evaluation of the model.
+
+Open finding C16-K5: the FULL round-trip statement "a mapping comes back with all its entries" is false when two
+float keys print alike (`float_keys_collapse`, `roundtripFloatKeys_Full_false`); `roundtrip` (Props.lean) therefore
+excludes float keys (`savable`).  known/C16.jsonl replays the same input on the real driver.
+
+The other theorems are the former witnesses of the findings K1-K3, which were repaired in round 2 (`fix:` commits
+CR escape, inf/nan text, mblen): they now state the repaired behaviour on the very inputs that used to fail.
+(K4, subnormal floats, concerns IEEE arithmetic, a parameter of the model: no Lean evaluation; replayed on the driver.)
 -/
 import NV.C16.Model
 
@@ -13,10 +18,10 @@ open NV.C16
 /-- a float parameter whose every float prints as "1.5" -/
 def unitF : FloatOps Unit :=
   ⟨fun _ => [49, 46, 53], fun _ => (), fun _ _ => (), fun _ _ => (), fun _ _ => (), fun _ => (), fun _ => (),
-   fun _ _ => true⟩
+   fun _ _ => true, fun _ => false, fun _ => false, fun _ => false⟩
 
-/-- a float parameter whose float prints as "inf" (what "%g" gives for an infinity) -/
-def infF : FloatOps Unit := { unitF with print := fun _ => [105, 110, 102] }
+/-- a float parameter whose only float is an infinity ("%g" would print "inf") -/
+def infF : FloatOps Unit := { unitF with print := fun _ => [105, 110, 102], isInf := fun _ => true }
 
 /-- mblen of a locale in which exactly the ASCII bytes are characters (every byte ≥ 128 is an invalid sequence):
     the behaviour of the UTF-8 locale on a stray byte such as 0xff -/
@@ -38,42 +43,49 @@ def asciiMb : MbLen where
     | nil => simp_all
     | cons c r => simp only at h; split at h <;> simp_all
 
-/-- the full statement for strings: every NUL-free string survives save + restore -/
-def RoundtripStr_Full : Prop :=
-  ∀ s : List Nat, (∀ b ∈ s, b ≠ 0) → restoreVariable unitF asciiMb (save unitF (.str s)) = RvOut.value (.str s)
-
-/-- what the model computes for the string "\r": the string "\n"  (known finding C16-K1-cr) -/
-theorem cr_comes_back_as_lf :
-    restoreVariable unitF asciiMb (save unitF (.str [13])) = RvOut.value (.str [10]) := by rfl
-
-theorem roundtripStr_Full_false : ¬ RoundtripStr_Full := by
-  intro h
-  have h1 := h [13] (by simp)
-  rw [cr_comes_back_as_lf] at h1
-  cases h1
-
-/-- a string with a byte that is no character of the locale restores on its own ... -/
-theorem stray_byte_alone_ok :
-    restoreVariable unitF asciiMb (save unitF (.str [255])) = RvOut.value (.str [255]) := by rfl
-
-/-- ... but not inside an array: restore_size rejects the text  (known finding C16-K3-multibyte) -/
-theorem stray_byte_in_array_fails :
-    restoreVariable unitF asciiMb (save unitF (.arr (.cons (.str [255]) .nil)))
-      = RvOut.error "restore_object(): Illegal array format." := by rfl
-
-/-- an infinity is written as "inf", which restores as the integer 0 ... (known finding C16-K2-nonfinite) -/
-theorem inf_comes_back_as_zero :
-    restoreVariable infF asciiMb (save infF (.real ())) = RvOut.value (.int 0) := by rfl
-
-/-- ... and makes the restore of an enclosing array fail -/
-theorem inf_in_array_fails :
-    restoreVariable infF asciiMb (save infF (.arr (.cons (.real ()) .nil)))
-      = RvOut.error "restore_object(): Illegal array format." := by rfl
+/-! ### open: K5 -/
 
 /-- two float keys that print alike are one key after the restore  (known finding C16-K5-float-keys) -/
 theorem float_keys_collapse :
     restoreVariable unitF asciiMb
         (save unitF (.map (.cons (.real ()) (.str [97]) (.cons (.real ()) (.str [98]) .nil))))
       = RvOut.value (.map (.cons (.real ()) (.str [98]) .nil)) := by rfl
+
+def pairCount {α} : Pairs α → Nat
+  | .nil => 0
+  | .cons _ _ r => pairCount r + 1
+
+/-- the full statement for mappings: a restored mapping has as many entries as the saved one -/
+def RoundtripFloatKeys_Full : Prop :=
+  ∀ ps : Pairs Unit, ∃ qs, restoreVariable unitF asciiMb (save unitF (.map ps)) = RvOut.value (.map qs) ∧
+    pairCount qs = pairCount ps
+
+theorem roundtripFloatKeys_Full_false : ¬ RoundtripFloatKeys_Full := by
+  intro h
+  obtain ⟨qs, h1, h2⟩ := h (.cons (.real ()) (.str [97]) (.cons (.real ()) (.str [98]) .nil))
+  rw [float_keys_collapse] at h1
+  cases h1
+  simp [pairCount] at h2
+
+/-! ### repaired in round 2 (former witnesses, now regression facts) -/
+
+/-- K1: the string "\r" is written as `"\` CR `"` and comes back unchanged; "\n" still travels as a bare CR -/
+theorem cr_round_trips :
+    save unitF (.str [13, 10]) = [34, 92, 13, 13, 34] ∧
+    restoreVariable unitF asciiMb (save unitF (.str [13, 10])) = RvOut.value (.str [13, 10]) := by
+  constructor <;> rfl
+
+/-- K3: a string with a byte that is no character of the locale restores inside an array as well -/
+theorem stray_byte_in_array_ok :
+    restoreVariable unitF asciiMb (save unitF (.arr (.cons (.str [255, 34]) .nil)))
+      = RvOut.value (.arr (.cons (.str [255, 34]) .nil)) := by rfl
+
+/-- K2: an infinity is written as "1e+999" and read back as a float, alone and inside an array -/
+theorem inf_is_written_as_number :
+    save infF (.real ()) = [49, 101, 43, 57, 57, 57] ∧
+    restoreVariable infF asciiMb (save infF (.real ())) = RvOut.value (.real ()) ∧
+    restoreVariable infF asciiMb (save infF (.arr (.cons (.real ()) .nil)))
+      = RvOut.value (.arr (.cons (.real ()) .nil)) := by
+  refine ⟨rfl, rfl, rfl⟩
 
 end NV.C16.Witness
